@@ -321,8 +321,24 @@ fn check_accessors(out: &mut WorkerOut) {
         acc("float", kind == "number", guarded(|| e(vv.clone().float().map(|f| matches!(&vv, Value::Number(x) if x.to_string().parse::<f64>().ok() == Some(f))))));
     }
     // From for the non-numeric types round-trips through the accessors
-    let strings = ["", "a", "é€😀", "12", " spaced ", "quote'\""];
-    for s in strings {
+    // a string lattice: every "special" character (whitespace of every kind, BOM, NUL, quotes,
+    // backslash, digits, multi-byte characters, a combining mark, words that look like other
+    // values) at the start, in the middle, at the end and alone, and long runs
+    let mut strings: Vec<String> = ["", "a", "é€😀", "12", " spaced ", "quote'\"", "true", "None", "1.50", "-0", "[1]"].iter().map(|s| s.to_string()).collect();
+    for c in [" ", "\t", "\n", "\r", "\u{feff}", "\0", "'", "\"", "\\", "0", "é", "€", "😀", "\u{301}", "\u{a0}", "\u{200b}", "\u{2028}", "\u{7f}", "%", "{", "\u{fffd}"] {
+        strings.push(c.to_string());
+        strings.push(format!("{}x", c));
+        strings.push(format!("x{}", c));
+        strings.push(format!("x{}y", c));
+        strings.push(format!("{}{}", c, c));
+        strings.push(format!("{}x{}", c, c));
+    }
+    for n in [15usize, 16, 17, 23, 24, 25, 31, 32, 33, 63, 64, 65, 255, 256, 257, 4096] {
+        strings.push("a".repeat(n));
+        strings.push("é".repeat(n));
+        strings.push(format!("{}€", "a".repeat(n - 1)));
+    }
+    for s in strings.iter().map(|s| s.as_str()) {
         out.evals += 2;
         let a = guarded(|| Value::from(s).string().map_err(|e| format!("{:?}", e)));
         let b = guarded(|| Value::from(s.to_string()).string().map_err(|e| format!("{:?}", e)));
